@@ -146,7 +146,8 @@ def Index_get_c_offset(part, conf, icount):
         out.append(f"  offset+={soffset};")
     else:
         lookup_field_offset = f"offset+{soffset}"
-        out.append(f"  offset={int_from_obj(lookup_field_offset, conf)};")
+        # the table holds offsets relative to the start of the array
+        out.append(f"  offset+={int_from_obj(lookup_field_offset, conf)};")
     return out
 
 
